@@ -134,6 +134,7 @@ class Env:
         self.checks = 0
         self.reached = set()
         self.aux = {}  # harness-computed values the known-finding regions may refer to
+        self.overwide = []  # (label, region id): paths on which the region also contains inputs satisfying the assertion
 
     sym = property(lambda self: self.mode == "sym")
 
@@ -283,6 +284,12 @@ class Env:
                 if self.ctx.must(cond) is not None:
                     for rid, r in regs:
                         self.excused.append((label, rid))
+                if self.tier == "thorough":
+                    # region tightness: is there an input inside the region on which the assertion holds? (reported, not a verdict)
+                    for rid, r in regs:
+                        both = sym.sym_and(r, cond)
+                        if both is True or (isinstance(both, SymBool) and self.ctx.check(both.t) == z3.sat):
+                            self.overwide.append((label, rid))
         else:
             if not cond:
                 for rid, r in regs:
@@ -382,6 +389,7 @@ def run_path(fn, params, prefix, regions, tier, deadline, qtimeout_ms):
         except Exception as e:  # pragma: no cover
             rec["violations"].append({"label": v.label, "detail": v.detail + " (model extraction failed: %r)" % e, "inputs": None})
     rec["excused"] = sorted(set(env.excused))
+    rec["overwide"] = sorted(set(env.overwide))
     rec["reached"] = sorted(env.reached)
     rec["checks"] = env.checks
     rec["queries"] = ctx.queries
@@ -398,7 +406,7 @@ def explore(fn, params, prefix=(), regions=None, tier="quick", max_paths=10**9, 
     stack = [list(prefix)]
     agg = {
         "paths": 0, "ok": 0, "infeasible": 0, "cut": 0, "inconclusive": 0, "queries": 0, "solver_s": 0.0, "checks": 0,
-        "violations": [], "witnesses": [], "why": {}, "excused": {}, "reached": {}, "leftover": [], "kinds": {},
+        "violations": [], "witnesses": [], "why": {}, "excused": {}, "reached": {}, "leftover": [], "kinds": {}, "overwide": {},
     }  # fmt: skip
     while stack:
         if agg["paths"] >= max_paths or time.time() > deadline:
@@ -419,6 +427,9 @@ def explore(fn, params, prefix=(), regions=None, tier="quick", max_paths=10**9, 
         for e in rec["excused"]:
             k = "%s|%s" % e
             agg["excused"][k] = agg["excused"].get(k, 0) + 1
+        for e in rec.get("overwide", ()):
+            k = "%s|%s" % e
+            agg["overwide"][k] = agg["overwide"].get(k, 0) + 1
         for v in rec["violations"]:
             v["prefix_len"] = len(rec["dec"])
             agg["violations"].append(v)
